@@ -122,6 +122,7 @@ def writer_fields(prog, root_adt, fn_path):
     m, text, problems, root = xmlgen.writer_map(prog, fn_path)
     out = {}
     selfp = 1
+    heads = set()
     for name, sites in m.items():
         for s in sites:
             ch = chain_of(s["tree"])
@@ -129,11 +130,17 @@ def writer_fields(prog, root_adt, fn_path):
                 continue
             p, chain = ch
             chain = clean_chain(chain)
+            if p == selfp and chain:
+                heads.add(chain[0])
             of = owner_field(prog, root_adt, chain) if p == selfp else None
             if of is None:
                 continue
             out.setdefault((of[0], of[1]), []).append(dict(tag=s["path"].rsplit("/", 1)[-1], path=s["path"], where=s["where"], etype=s["etype"], vtype=vtype(s), spec=s["spec"], tree=s["tree"], fty=of[2]))
+    WRITER_HEADS[fn_path] = heads
     return out, text, problems, root
+
+
+WRITER_HEADS = {}
 
 
 def reader_fields(prog, fns):
@@ -205,14 +212,7 @@ def inverse_maps(ctx, prog, rule_maps, rule_cov, rule_fmt):
         a = prog.adts.get(adt)
         if a:
             for f in a["variants"][0]["fields"]:
-                key = (adt, f["name"])
-                nested = _inner_adt(f["ty"])
-                covered = key in w or any(k[0] == nested or _same_family(k[0], nested) for k in w) or (label, f["name"]) in NOT_SERIALISED_OK
-                if not covered and nested in prog.adts:
-                    covered = any(oa == nested for (oa, _) in w)
-                if not covered:
-                    # nested struct serialised by a call: look for a value whose chain starts with the field
-                    covered = f["name"] in _chain_heads(prog, wfn)
+                covered = f["name"] in WRITER_HEADS.get(wfn, set()) or (label, f["name"]) in NOT_SERIALISED_OK
                 ctx.ob(rule_cov, "field-coverage/%s.%s" % (label, f["name"]), covered, "%s.%s (%s) %s by %s" % (label, f["name"], f["ty"], "is serialised" if covered else "is NOT serialised", short(wfn)),
                        nontrivial=False)
         # number formatting
